@@ -13,5 +13,5 @@ for f in os.listdir(src):
     if os.path.isfile(p) and os.path.getsize(p) < 2_000_000:
         shutil.copy(p, os.path.join(dst, f))
 json.dump({"breaks_property": prop, "needs_to_manifest": needs, "caught_by_checks": caught.split(","), "confirmed": ran,
-           "origin": "independent sub-agent given only the property text and a scratch worktree" + (" (second round: told the first round's idea and asked for a different mechanism)" if name.endswith("b") else " (third round: told how the first two rounds' changes manifested and asked for a third mechanism)" if name.endswith("c") else " (fourth round: given a direction - an area of the code not yet attacked - plus the list of how all earlier changes manifested)" if name.endswith("d") else " (fifth round: asked for cooperating edits that look like a refactor or an optimisation and manifest only in a rare situation; given the list of how all earlier changes manifested)" if name.endswith("e") else " (sixth round: the change had to live in concurrency, timing, I/O or lifecycle code, or in state that only matters deep into a search or late in a long session)" if name.endswith("f") else " (seventh round: scale and extremes - the violation had to need something large, long, deep or at a limit)" if name.endswith("g") else " (eighth round: asked for a dimension of the input or schedule that a test generator probably does not vary - combinations of rare features, order of parameters and commands, parities, one-colour / one-file asymmetries, state carried between searches)" if name.endswith("h") else "")}, open(os.path.join(dst, "meta.json"), "w"), indent=1)
+           "origin": "independent sub-agent given only the property text and a scratch worktree" + (" (second round: told the first round's idea and asked for a different mechanism)" if name.endswith("b") else " (third round: told how the first two rounds' changes manifested and asked for a third mechanism)" if name.endswith("c") else " (fourth round: given a direction - an area of the code not yet attacked - plus the list of how all earlier changes manifested)" if name.endswith("d") else " (fifth round: asked for cooperating edits that look like a refactor or an optimisation and manifest only in a rare situation; given the list of how all earlier changes manifested)" if name.endswith("e") else " (sixth round: the change had to live in concurrency, timing, I/O or lifecycle code, or in state that only matters deep into a search or late in a long session)" if name.endswith("f") else " (seventh round: scale and extremes - the violation had to need something large, long, deep or at a limit)" if name.endswith("g") else " (eighth round: asked for a dimension of the input or schedule that a test generator probably does not vary - combinations of rare features, order of parameters and commands, parities, one-colour / one-file asymmetries, state carried between searches)" if name.endswith("h") else " (ninth round: same direction as the eighth, for the other eight properties)" if name.endswith("i") else "")}, open(os.path.join(dst, "meta.json"), "w"), indent=1)
 print("saved", dst, os.listdir(dst))
